@@ -8,6 +8,7 @@ import (
 	"bytes"
 	"fmt"
 	"math/big"
+	"reflect"
 	"sort"
 	"testing"
 
@@ -16,6 +17,9 @@ import (
 	"github.com/nspcc-dev/neo-go/pkg/core/native/nativenames"
 	"github.com/nspcc-dev/neo-go/pkg/core/state"
 	"github.com/nspcc-dev/neo-go/pkg/core/transaction"
+	"github.com/nspcc-dev/neo-go/pkg/crypto/keys"
+	"github.com/nspcc-dev/neo-go/pkg/vm/opcode"
+	"github.com/nspcc-dev/neo-go/pkg/wallet"
 	"github.com/nspcc-dev/neo-go/pkg/encoding/bigint"
 	"github.com/nspcc-dev/neo-go/pkg/io"
 	"github.com/nspcc-dev/neo-go/pkg/neotest"
@@ -66,6 +70,9 @@ const (
 	c04NContracts = 3 // test contracts 0,1,2
 	c04NPlain     = 2 // plain accounts 3,4
 	c04NKeys      = 6 // storage keys 0..5 per contract
+	c04NSenders   = 2 // accounts 5,6: plain accounts with keys that send (and pay for) transactions
+	c04NAcc       = c04NContracts + c04NPlain + c04NSenders
+	c04NNeo       = c04NContracts + c04NPlain // accounts that may hold NEO
 )
 
 type c04Chain struct {
@@ -77,6 +84,10 @@ type c04Chain struct {
 	ids   []int32 // contract ids of the test contracts
 	gasID int32
 	polID int32
+	neoID int32
+	// senders: single-signature accounts 5,6 (the committee co-signs their transactions with Global scope, so that
+	// committee-only natives behave the same whoever pays)
+	senders []neotest.Signer
 }
 
 func c04PlainAccount(i int) util.Uint160 {
@@ -93,10 +104,47 @@ func c04NewChain() *c04Chain {
 	bc, acc := chain.NewSingleWithOptions(t, &chain.Options{Logger: zap.NewNop()})
 	e := neotest.NewExecutor(t, bc, acc, acc)
 	c := &c04Chain{t: t, bc: bc, e: e, owner: acc}
-	env := &c04Env{gas: e.NativeHash(t, nativenames.Gas), policy: e.NativeHash(t, nativenames.Policy)}
+	env := &c04Env{gas: e.NativeHash(t, nativenames.Gas), policy: e.NativeHash(t, nativenames.Policy), neo: e.NativeHash(t, nativenames.Neo)}
 	c.gasID = e.NativeID(t, nativenames.Gas)
 	c.polID = e.NativeID(t, nativenames.Policy)
-	script, runOff, payOff := c04Interpreter(env.gas, env.policy)
+	c.neoID = e.NativeID(t, nativenames.Neo)
+	c.env = env
+	// the standby validator's key becomes a registered candidate (test contracts vote for it)
+	single := acc.(neotest.MultiSigner).Single(0)
+	env.cand = single.Account().PublicKey().Bytes()
+	c.mustHalt(c.newTx(c04TransferScript(c, single.ScriptHash(), 1100_0000_0000), 1_0000_0000))
+	{
+		a := c04NewAsm()
+		a.pushBytes(env.cand)
+		a.pushInt(1)
+		a.raw(byte(opcode.PACK))
+		a.pushInt(15)
+		a.pushStr("registerCandidate")
+		a.pushBytes(env.neo.BytesBE())
+		a.syscall("System.Contract.Call")
+		a.raw(byte(opcode.ASSERT))
+		tx := transaction.New(a.bytes(), 1010_0000_0000)
+		tx.Nonce = neotest.Nonce()
+		tx.ValidUntilBlock = bc.BlockHeight() + 1
+		tx.Signers = []transaction.Signer{{Account: single.ScriptHash(), Scopes: transaction.Global}}
+		neotest.AddNetworkFee(t, bc, tx, single)
+		if err := single.SignTx(bc.GetConfig().Magic, tx); err != nil {
+			panic(err)
+		}
+		c.mustHalt(tx)
+	}
+	for i := 0; i < c04NSenders; i++ {
+		b := make([]byte, 32)
+		b[0], b[31] = 0x5e, byte(i+1)
+		pk, err := keys.NewPrivateKeyFromBytes(b)
+		if err != nil {
+			panic(err)
+		}
+		sg := neotest.NewSingleSigner(wallet.NewAccountFromPrivateKey(pk))
+		c.senders = append(c.senders, sg)
+		env.senders = append(env.senders, sg.ScriptHash())
+	}
+	script, runOff, payOff := c04Interpreter(env.gas, env.policy, env.neo)
 	config.Version = "0.0.0"
 	for i := 0; i < c04NContracts; i++ {
 		ne, err := nef.NewFile(script)
@@ -124,8 +172,14 @@ func c04NewChain() *c04Chain {
 	for i := 0; i < c04NPlain; i++ {
 		env.plain = append(env.plain, c04PlainAccount(i))
 	}
-	c.env = env
 	return c
+}
+
+func (c *c04Chain) mustHalt(tx *transaction.Transaction) {
+	if err := c.addBlock(tx); err != nil {
+		panic(err)
+	}
+	c.e.CheckHalt(c.t, tx.Hash())
 }
 
 func (c *c04Chain) close() { c.t.done() }
@@ -136,18 +190,31 @@ func (c *c04Chain) newTx(script []byte, sysFee int64) *transaction.Transaction {
 }
 
 func (c *c04Chain) newTxUntil(script []byte, sysFee int64, blocks uint32) *transaction.Transaction {
+	return c.newTxFrom(-1, script, sysFee, blocks)
+}
+
+// newTxFrom: sender < 0: the committee account pays; sender = 0,1: account 5,6 pays and the committee co-signs.
+func (c *c04Chain) newTxFrom(sender int, script []byte, sysFee int64, blocks uint32) *transaction.Transaction {
 	tx := transaction.New(script, sysFee)
 	tx.Nonce = neotest.Nonce()
 	tx.ValidUntilBlock = c.bc.BlockHeight() + blocks
-	tx.Signers = []transaction.Signer{{Account: c.owner.ScriptHash(), Scopes: transaction.Global}}
-	neotest.AddNetworkFee(c.t, c.bc, tx, c.owner)
+	signers := []neotest.Signer{c.owner}
+	if sender >= 0 {
+		signers = []neotest.Signer{c.senders[sender], c.owner}
+	}
+	for _, sg := range signers {
+		tx.Signers = append(tx.Signers, transaction.Signer{Account: sg.ScriptHash(), Scopes: transaction.Global})
+	}
+	neotest.AddNetworkFee(c.t, c.bc, tx, signers...)
 	if blocks > 1 {
 		// the fee per byte may be raised by an earlier transaction of the same case before this one is verified
 		// in a block of its own on the replica
 		tx.NetworkFee += 1000_0000
 	}
-	if err := c.owner.SignTx(c.bc.GetConfig().Magic, tx); err != nil {
-		panic(err)
+	for _, sg := range signers {
+		if err := sg.SignTx(c.bc.GetConfig().Magic, tx); err != nil {
+			panic(err)
+		}
 	}
 	return tx
 }
@@ -155,8 +222,16 @@ func (c *c04Chain) newTxUntil(script []byte, sysFee int64, blocks uint32) *trans
 // resign after changing fees
 func (c *c04Chain) resign(tx *transaction.Transaction) {
 	tx.Scripts = nil
-	if err := c.owner.SignTx(c.bc.GetConfig().Magic, tx); err != nil {
-		panic(err)
+	for _, sn := range tx.Signers {
+		var sg neotest.Signer = c.owner
+		for _, x := range c.senders {
+			if x.ScriptHash() == sn.Account {
+				sg = x
+			}
+		}
+		if err := sg.SignTx(c.bc.GetConfig().Magic, tx); err != nil {
+			panic(err)
+		}
 	}
 }
 
@@ -180,9 +255,29 @@ type c04KV struct {
 
 type c04State struct {
 	Store    []c04KV `json:"store"`     // storage of the test contracts (sorted)
-	Bal      []int64 `json:"bal"`       // GAS balances of accounts 0..4
+	Bal      []int64 `json:"bal"`       // GAS balances of accounts 0..6
 	FeeCache int64   `json:"fee_cache"` // Policy.getFeePerByte as the node sees it (native cache)
 	FeeStore int64   `json:"fee_store"` // the same value as stored in Policy's contract storage
+	Neo      []int64 `json:"neo"`       // NEO balances of accounts 0..4
+	Vote     []int   `json:"vote"`      // 1: the account votes for the candidate
+	Cand     int64   `json:"cand"`      // votes of the candidate
+	Voters   int64   `json:"voters"`    // voters count
+	VC       bool    `json:"vc"`        // NEO cache: votesChanged (hook)
+	// GAS each account would be minted if its NEO balance were touched in the NEXT block: input of the model, decided
+	// by heights (not reproduced by a replay, which observes its own)
+	Claim []int64 `json:"claim"`
+}
+
+// same: equality of everything but the claims
+func (s c04State) same(o c04State) bool {
+	s.Claim, o.Claim = nil, nil
+	return reflect.DeepEqual(s, o)
+}
+
+// samePre: as a starting point (votesChanged is reset at the start of every block)
+func (s c04State) samePre(o c04State) bool {
+	s.VC, o.VC = false, false
+	return s.same(o)
 }
 
 func (c *c04Chain) observe() c04State {
@@ -209,9 +304,47 @@ func (c *c04Chain) observe() c04State {
 		}
 		return s.Store[a].K < s.Store[b].K
 	})
-	for i := 0; i < c04NContracts+c04NPlain; i++ {
+	for i := 0; i < c04NAcc; i++ {
 		s.Bal = append(s.Bal, c.bc.GetUtilityTokenBalance(c.env.account(i), util.Uint160{}).Int64())
 	}
+	for i := 0; i < c04NNeo; i++ {
+		acc := c.env.account(i)
+		var bal int64
+		vote := 0
+		if it := c.bc.GetStorageItem(c.neoID, append([]byte{20}, acc.BytesBE()...)); it != nil {
+			nb, err := state.NEOBalanceFromBytes(it)
+			if err != nil {
+				panic(err)
+			}
+			bal = nb.Balance.Int64()
+			if nb.VoteTo != nil {
+				vote = 1
+				if !bytes.Equal(nb.VoteTo.Bytes(), c.env.cand) {
+					vote = 2
+				}
+			}
+		}
+		s.Neo = append(s.Neo, bal)
+		s.Vote = append(s.Vote, vote)
+		cl, err := c.bc.CalculateClaimable(acc, c.bc.BlockHeight()+1)
+		if err != nil {
+			panic(err)
+		}
+		s.Claim = append(s.Claim, cl.Int64())
+	}
+	if it := c.bc.GetStorageItem(c.neoID, append([]byte{33}, c.env.cand...)); it != nil {
+		si, err := stackitem.Deserialize(it)
+		if err != nil {
+			panic(err)
+		}
+		arr := si.Value().([]stackitem.Item)
+		v, _ := arr[1].TryInteger()
+		s.Cand = v.Int64()
+	}
+	if it := c.bc.GetStorageItem(c.neoID, []byte{1}); it != nil {
+		s.Voters = bigint.FromBytes(it).Int64()
+	}
+	s.VC = c.bc.VerifNeoVotesChanged()
 	s.FeeCache = c.bc.FeePerByte()
 	s.FeeStore = -1
 	if it := c.bc.GetStorageItem(c.polID, []byte{10}); it != nil { // feePerByteKey
@@ -272,12 +405,14 @@ func (e c04Event) coq() string {
 		return fmt.Sprintf("EvP %d %d", e.C, e.A)
 	case "T":
 		return fmt.Sprintf("EvT %d %d %d", e.C, e.A, e.B)
+	case "TN":
+		return fmt.Sprintf("EvTN %d %d %d", e.C, e.A, e.B)
 	}
 	return "EvBad"
 }
 
 func (c *c04Chain) accountIndex(h util.Uint160) int {
-	for i := 0; i < c04NContracts+c04NPlain; i++ {
+	for i := 0; i < c04NAcc; i++ {
 		if c.env.account(i) == h {
 			return i
 		}
@@ -311,6 +446,11 @@ func (c *c04Chain) decodeEvents(evs []state.NotificationEvent) []c04Event {
 		}
 		x := c04Event{Kind: "?", C: c.accountIndex(ev.ScriptHash)}
 		switch {
+		case ev.ScriptHash == c.env.neo && ev.Name == "Transfer" && len(items) == 3:
+			x = c04Event{Kind: "TN", C: int(num(items[0])), A: num(items[1]), B: num(items[2])}
+			if _, ok := items[0].(stackitem.Null); ok {
+				x.C = 98
+			}
 		case ev.ScriptHash == c.env.gas && ev.Name == "Transfer" && len(items) == 3:
 			x = c04Event{Kind: "T", C: int(num(items[0])), A: num(items[1]), B: num(items[2])}
 			if _, ok := items[0].(stackitem.Null); ok {
@@ -350,6 +490,10 @@ var _ = bytes.Equal
 
 // script transferring GAS from the owner to an account with null data
 func c04TransferScript(c *c04Chain, to util.Uint160, amt int64) []byte {
+	return c04TokenTransferScript(c, c.env.gas, to, amt)
+}
+
+func c04TokenTransferScript(c *c04Chain, token, to util.Uint160, amt int64) []byte {
 	a := c04NewAsm()
 	a.raw(byte(0x0b)) // PUSHNULL (data)
 	a.pushInt(amt)
@@ -359,7 +503,7 @@ func c04TransferScript(c *c04Chain, to util.Uint160, amt int64) []byte {
 	a.raw(byte(0xc0)) // PACK
 	a.pushInt(15)
 	a.pushStr("transfer")
-	a.pushBytes(c.env.gas.BytesBE())
+	a.pushBytes(token.BytesBE())
 	a.syscall("System.Contract.Call")
 	a.raw(byte(0x39)) // ASSERT
 	return a.bytes()
